@@ -494,6 +494,7 @@ pub enum Op {
     Next,
     NextBack,
     Nth(usize),
+    NthBack(usize),
     Wrap(Stage),
 }
 
@@ -503,6 +504,7 @@ impl Op {
             Op::Next => J::s("next"),
             Op::NextBack => J::s("next_back"),
             Op::Nth(k) => J::obj(vec![("nth", J::Int(*k as i64))]),
+            Op::NthBack(k) => J::obj(vec![("nth_back", J::Int(*k as i64))]),
             Op::Wrap(s) => J::obj(vec![("wrap", s.to_j())]),
         }
     }
@@ -513,6 +515,8 @@ impl Op {
             J::Obj(_) => {
                 if let Some(k) = j.get("nth") {
                     Ok(Op::Nth(k.as_usize()?))
+                } else if let Some(k) = j.get("nth_back") {
+                    Ok(Op::NthBack(k.as_usize()?))
                 } else if let Some(s) = j.get("wrap") {
                     Ok(Op::Wrap(Stage::from_j(s)?))
                 } else {
@@ -527,6 +531,7 @@ impl Op {
             Op::Next => 'F',
             Op::NextBack => 'B',
             Op::Nth(_) => 'N',
+            Op::NthBack(_) => 'M',
             Op::Wrap(_) => 'W',
         }
     }
@@ -694,6 +699,12 @@ impl Sink {
 pub enum Terminal {
     /// count the rest by plain safe iteration
     Drain,
+    /// consume the rest with `Iterator::count`
+    Count,
+    /// consume the rest with `Iterator::last`
+    Last,
+    /// consume the rest with `Iterator::for_each` (internal iteration)
+    ForEach,
     /// abandon the stream (cancellation)
     Drop,
     /// give what is left to a library sink
@@ -704,6 +715,9 @@ impl Terminal {
     pub fn to_j(&self) -> J {
         match self {
             Terminal::Drain => J::s("drain"),
+            Terminal::Count => J::s("count"),
+            Terminal::Last => J::s("last"),
+            Terminal::ForEach => J::s("for_each"),
             Terminal::Drop => J::s("drop"),
             Terminal::HandOff(s) => J::obj(vec![("handoff", s.to_j())]),
         }
@@ -711,6 +725,9 @@ impl Terminal {
     pub fn from_j(j: &J) -> Result<Terminal, String> {
         match j {
             J::Str(s) if s == "drain" => Ok(Terminal::Drain),
+            J::Str(s) if s == "count" => Ok(Terminal::Count),
+            J::Str(s) if s == "last" => Ok(Terminal::Last),
+            J::Str(s) if s == "for_each" => Ok(Terminal::ForEach),
             J::Str(s) if s == "drop" => Ok(Terminal::Drop),
             _ => Ok(Terminal::HandOff(Sink::from_j(j.req("handoff")?)?)),
         }
@@ -718,6 +735,9 @@ impl Terminal {
     pub fn kind(&self) -> String {
         match self {
             Terminal::Drain => "drain".into(),
+            Terminal::Count => "count".into(),
+            Terminal::Last => "last".into(),
+            Terminal::ForEach => "for_each".into(),
             Terminal::Drop => "drop".into(),
             Terminal::HandOff(s) => s.kind(),
         }
